@@ -1170,6 +1170,12 @@ func (se *stanzaEncoder) EncodeToken(t xml.Token) error {
 			var foundID, foundFrom bool
 			attrs := tok.Attr[:0]
 			for _, attr := range tok.Attr {
+				if attr.Name.Space != "" {
+					// An attribute of another namespace is not the stanza's id or
+					// from, whatever its local name: it goes out as it is.
+					attrs = append(attrs, attr)
+					continue
+				}
 				switch attr.Name.Local {
 				case "id":
 					// RFC6120 § 8.1.3
